@@ -34,6 +34,9 @@ class ScriptReceiver(PyObj):
         nopt = len(avail) + (1 if allow_timeout and self.max_timeouts > 0 else 0)
         if nopt == 0:
             raise Violation('Start waits for a batch although every upstream replica has terminated (deadlock)')
+        if allow_timeout and self.log and self.log[-1] == ('timeout',):
+            raise Violation('Start waits with a timeout again right after a timeout: it would emit FlushBatch forever '
+                            'instead of blocking until data arrives')
         k = ex.choose(nopt, 'arrival') if nopt > 1 else 0
         if k >= len(avail):
             self.max_timeouts -= 1
